@@ -35,13 +35,16 @@ P_CLASSES = [
     ("sympy", "exp"), ("sympy", "log"), ("sympy", "sin"), ("sympy", "cos"), ("sympy", "tan"), ("sympy", "asin"), ("sympy", "acos"), ("sympy", "atan"),
     ("sympy", "Abs"), ("sympy", "floor"), ("sympy", "Mod"), ("sympy", "Piecewise"),
     ("sympy", "StrictLessThan"), ("sympy", "LessThan"), ("sympy", "StrictGreaterThan"), ("sympy", "GreaterThan"), ("sympy", "Equality"), ("sympy", "Unequality"),
-    ("sympy", "And"), ("sympy", "Or"), ("sympy", "Not"),
+    ("sympy", "And"), ("sympy", "Or"), ("sympy", "Not"), ("sympy.logic.boolalg", "ITE"),
     ("sympy.logic.boolalg", "BooleanTrue"), ("sympy.logic.boolalg", "BooleanFalse"),
     ("sympy", "sign"), ("sympy", "DiracDelta"), ("sympy", "Indexed"), ("sympy.codegen.ast", "Assignment"),
 ]
 
 # classes that only the generator side / schemes produce; the .ode writer never sees them
 NOT_FOR_WRITER = {"sign", "DiracDelta", "Indexed", "Assignment"}
+# ITE only arises inside the condition of a Piecewise (sympy folds a relation over a Piecewise into it); the writer has no
+# name for it, and relies on the shared _print_Piecewise helper rewriting such a condition with simplify_logic
+ONLY_IN_CONDITIONS = {"ITE"}
 
 
 class Resolved:
@@ -206,6 +209,7 @@ VETTED: dict[tuple[str, str], dict] = {
     ("py", "AbstractPythonCodePrinter._print_Mod"): V(ok=True, array=True, note="a % b: sign of the divisor, as sympy.Mod"),
     ("py", "AbstractPythonCodePrinter._print_Piecewise"): V(ok=True, array=False, why="emits `(a) if (c) else (b)`: scalar-only"),
     ("py", "AbstractPythonCodePrinter._print_Relational"): V(ok=True, array=True),
+    ("py", "AbstractPythonCodePrinter._print_ITE"): V(ok=True, array=True, note="self._print(expr.rewrite(Piecewise)): printed by the printer's own _print_Piecewise (checked separately)"),
     ("py", "CodePrinter._print_And"): V(ok=True, array=False, why="emits `a and b`: scalar-only"),
     ("py", "CodePrinter._print_Or"): V(ok=True, array=False, why="emits `a or b`: scalar-only"),
     ("py", "PythonCodePrinter._print_Not"): V(ok=True, array=False, why="emits `not (a)`: scalar-only", normalised_away=True),
@@ -224,6 +228,7 @@ VETTED: dict[tuple[str, str], dict] = {
     ("c", "C89CodePrinter._print_Rational"): V(ok=True, note="p.0/q.0"),
     ("c", "C89CodePrinter._print_Float"): V(ok=False, why="prints with the printer's precision setting, not the shortest round-trip repr"),
     ("c", "C89CodePrinter._print_Symbol"): V(ok=True),
+    ("c", "C89CodePrinter._print_ITE"): V(ok=True, real=True, note="self._print(expr.rewrite(Piecewise, deep=False)): printed by the printer's own _print_Piecewise (checked separately)"),
     ("c", "CodePrinter._print_Pi"): V(ok=True, note="M_PI"),
     ("c", "CodePrinter._print_Exp1"): V(ok=True, note="M_E"),
     **{("c", f"C99CodePrinter._print_{f}"): V(ok=True) for f in ("exp", "log", "sin", "cos", "tan", "asin", "acos", "atan", "Abs", "floor")},
